@@ -721,3 +721,11 @@ def row_writes(fnode):
                 if row is not None:
                     out.append((c, seq_shape(fnode, row)))
     return out
+
+
+def ancestors(node):
+    """Lexical ancestors of an AST node (innermost first); needs the parent links set by the model."""
+    n = getattr(node, "parent", None)
+    while n is not None:
+        yield n
+        n = getattr(n, "parent", None)
